@@ -29,6 +29,7 @@ func init() {
 	vfRegister("VerifC36_compress", VerifC36_compress)
 	vfRegister("VerifC36_long", VerifC36_long)
 	vfRegister("VerifC36_ptrlimit", VerifC36_ptrlimit)
+	vfRegister("VerifC36_chain", VerifC36_chain)
 }
 
 func c36nondot(label string) byte {
@@ -499,5 +500,35 @@ func VerifC36_ptrlimit() {
 	if len(packed) < len(plain) {
 		vfReach("compression pointer emitted")
 	}
+	vfReach("end")
+}
+
+// VerifC36_chain: names that extend one another by one label at a time (a., b.a., c.b.a., ...), one record each, n = 2..13
+// records: every name is written as "label + pointer to the previous name", so decoding the n-th name follows n-1
+// compression pointers. Labels are concrete and distinct (the depth of the pointer chain is the dimension here);
+// header, class and TTL are symbolic. Known finding C36-pointer-chain-depth: from 12 names on, Pack and the Builder
+// with compression emit a chain of 11 pointers, which the package's own Unpack/Parser reject ("too many pointers (>10)").
+func VerifC36_chain() {
+	n := vfLen("n", 2, 13)
+	m := &Message{Header: c36header()}
+	var labels [][]byte
+	for i := 0; i < n; i++ {
+		labels = append([][]byte{{byte('a' + i)}}, labels...)
+		m.Answers = append(m.Answers, c36resource(c36name(labels...), &AResource{}))
+	}
+	packed, err := m.Pack()
+	vfAssert(err == nil, "well-formed message packs")
+	var u Message
+	err = u.Unpack(packed)
+	vfAssertKF(err == nil, "packed message unpacks (names extending one another)", "C36-pointer-chain-depth", n >= 12)
+	vfAssert(c37eqMsg(&u, m), "Unpack(Pack(m)) == m")
+	comp, err := c36build(m, true, 0)
+	vfAssert(err == nil, "Builder (compression) accepts the message")
+	vfAssert(c37eqBytes(comp, packed), "Builder with compression and Message.Pack produce the same bytes")
+	plain, err := c36build(m, false, 0)
+	vfAssert(err == nil, "Builder (no compression) accepts the message")
+	var u1 Message
+	vfAssert(u1.Unpack(plain) == nil && c37eqMsg(&u1, m), "Builder (no compression) output decodes to m")
+	vfObserve("packed len", uint64(len(packed)))
 	vfReach("end")
 }
